@@ -205,6 +205,16 @@ func runHarness(l *Loaded, base *State, e *Engine, fn *ssa.Function, tier int, c
 	res := &RunResult{Harness: fn.Name(), Cuts: map[string]string{}, Funcs: map[string]int{}}
 	var choices []int
 	var ranges [][2]int
+	// a case filter without the closing bracket ("[4 0 1") is a prefix: only the cases extending it are run
+	nfix := 0
+	if caseFilter != "" && !strings.HasSuffix(caseFilter, "]") {
+		choices = parseCase(caseFilter + "]")
+		nfix = len(choices)
+		for range choices {
+			ranges = append(ranges, [2]int{0, 0})
+		}
+		caseFilter = ""
+	}
 	for {
 		h := newRun(fn.Name(), fn, tier)
 		h.choices = append([]int{}, choices...)
@@ -275,7 +285,7 @@ func runHarness(l *Loaded, base *State, e *Engine, fn *ssa.Function, tier int, c
 		choices = h.choices
 		ranges = h.ranges
 		k := len(choices) - 1
-		for k >= 0 {
+		for k >= nfix {
 			if choices[k] < ranges[k][1] {
 				choices[k]++
 				choices = choices[:k+1]
@@ -284,7 +294,7 @@ func runHarness(l *Loaded, base *State, e *Engine, fn *ssa.Function, tier int, c
 			}
 			k--
 		}
-		if k < 0 {
+		if k < nfix {
 			break
 		}
 	}
@@ -418,6 +428,9 @@ func solveAll(e *Engine, obs []*Obligation, tier int, timeout time.Duration) {
 			j.ob.Solver = r.Solver
 			j.ob.Time = r.Time
 			j.ob.Model = r.Model
+			if os.Getenv("VERIF_TIMES") != "" && r.Time > 3 {
+				fmt.Fprintf(os.Stderr, "TIME %6.1fs %-8s %s (%s) [%s]\n", r.Time, r.Verdict, j.ob.Name, j.ob.Msg, r.Solver)
+			}
 			if r.Model != nil {
 				// integer-lifted models: map i!name back to bit-vector symbols
 				for k, v := range r.Model {
